@@ -177,6 +177,12 @@ def check(ctx, rep):
     st = [norm(s) for s in sp.body]
     rep.ob('page.rebound-to-active-page', 'active page = self._pages[apagenum]', 'self._apage = self._pages[apagenum]' in st and
            st.index('self._apage = self._pages[apagenum]') < st.index('self.graph_view.set_page(self._apage.pixels)'), repr(st), ctx.where(sp))
+    # a mode switch replaces the page objects while the page *number* may stay the same: set_page must rebind the gate
+    # unconditionally (no early return on an unchanged number)
+    spr = [r for r in own_nodes(sp) if isinstance(r, ast.Return)]
+    rebind = [c for c in own_nodes(sp) if isinstance(c, ast.Call) and norm(c.func) == 'self.graph_view.set_page']
+    rep.ob('page.rebound-on-every-call', 'Graphics.set_page rebinds the gate on every call', not spr and len(rebind) == 1 and isinstance(rebind[0]._parent, ast.Expr)
+           and rebind[0]._parent in sp.body, 'set_page can return without rebinding: after SCREEN 7,,1,1 : SCREEN 8 the gate still points at a page of the old mode', ctx.where(sp))
     # the page number handed to Graphics.set_page is the one recorded as the *active* page
     n_sp = 0
     for fn in ctx.idx.functions('pcbasic/basic/display/'):
@@ -223,6 +229,8 @@ def variants(ctx):
         return lambda tree: f(mu.find_def(tree, f_name))
 
     return [
+        Va('set-page-skips-unchanged-number', 'break', G,
+           lambda tree: mu.insert_first(mu.find_def(tree, 'Graphics.set_page'), 'if apagenum == getattr(self, "_apagenum", None):\n    return'), expect='page.rebound-on-every'),
         Va('graphics-follow-visible-page', 'break', D,
            lambda tree: mu.replace_expr(mu.find_def(tree, 'Display.set_page'), mu.text_is('self.graphics.set_page(new_apagenum)'), 'self.graphics.set_page(new_vpagenum)'), expect='page.graphics-follow'),
         Va('pset-writes-page-directly', 'break', G,
